@@ -275,6 +275,14 @@ func Check(c Case) []evid.Violation {
 		if inRange && te.Code != twirpNames[c.Code] {
 			return fail("twirp-code", "twirp-code-name", "code %d -> twirp %q, want %q", c.Code, te.Code, twirpNames[c.Code])
 		}
+		// the Twirp protocol fixes the set of error codes: whatever the status was, the client must get one of them
+		valid := false
+		for _, n := range twirpNames {
+			valid = valid || n == te.Code
+		}
+		if !valid {
+			return fail("twirp-code", "twirp-code-not-a-twirp-name", "code %d -> twirp code %q, which is not one of the error codes of the Twirp specification", c.Code, te.Code)
+		}
 		if te.Msg != c.Msg {
 			return fail("twirp-msg", "twirp-msg", "twirp msg %q want %q", te.Msg, c.Msg)
 		}
